@@ -15,6 +15,7 @@ import (
 	"pgregory.net/rapid"
 
 	"verifharness/ev"
+	"verifharness/gen"
 	"verifharness/models"
 )
 
@@ -46,6 +47,10 @@ type Step struct {
 	Pat      int    `json:"pat,omitempty"`      // write: content pattern
 	Scribble bool   `json:"scribble,omitempty"` // write: mutate the buffer after the call; read: mutate the returned buffer
 	Ref      int    `json:"ref,omitempty"`      // scribble: which retained Read result to mutate
+	// Via: how the "global wrappers" system issues this call: 0 the package-level wrapper,
+	// 1 the handle returned by disk.Get(), 2 the handle that was passed to disk.Init. All three
+	// are the same disk and must stay coherent (seeded change C09-6: a cache inside the wrappers)
+	Via int `json:"via,omitempty"`
 }
 
 // Case is one generated history.
@@ -71,43 +76,51 @@ type system struct {
 	name   string
 	d      disk.Disk
 	global bool
+	via    int // access path of the current step (global system only)
 	arena  []byte
 	held   []held
 	path   string
 }
 
+// handle is the disk a non-wrapper call of the global system goes through.
+func (s *system) handle() disk.Disk {
+	if s.global && s.via == 1 {
+		return disk.Get()
+	}
+	return s.d
+}
 func (s *system) read(a uint64) disk.Block {
-	if s.global {
+	if s.global && s.via == 0 {
 		return disk.Read(a)
 	}
-	return s.d.Read(a)
+	return s.handle().Read(a)
 }
 func (s *system) readTo(a uint64, b disk.Block) {
-	if s.global {
-		disk.Get().ReadTo(a, b)
+	if s.global && s.via != 2 {
+		disk.Get().ReadTo(a, b) // there is no ReadTo wrapper
 		return
 	}
 	s.d.ReadTo(a, b)
 }
 func (s *system) write(a uint64, b disk.Block) {
-	if s.global {
+	if s.global && s.via == 0 {
 		disk.Write(a, b)
 		return
 	}
-	s.d.Write(a, b)
+	s.handle().Write(a, b)
 }
 func (s *system) size() uint64 {
-	if s.global {
+	if s.global && s.via == 0 {
 		return disk.Size()
 	}
-	return s.d.Size()
+	return s.handle().Size()
 }
 func (s *system) barrier() {
-	if s.global {
+	if s.global && s.via == 0 {
 		disk.Barrier()
 		return
 	}
-	s.d.Barrier()
+	s.handle().Barrier()
 }
 
 func catch(f func()) (panicked bool, val any) {
@@ -236,6 +249,7 @@ func runCase(c Case) (msg string, infra string) {
 			wantOK = st.Len == bs && model.InRange(st.Addr)
 		}
 		for _, s := range systems {
+			s.via = st.Via % 3
 			switch st.Op {
 			case "write":
 				win := s.arena[st.Off : st.Off+st.Len]
@@ -322,6 +336,7 @@ func runCase(c Case) (msg string, infra string) {
 	}
 	// final scan
 	for _, s := range systems {
+		s.via = 0
 		var n uint64
 		if p, v := catch(func() { n = s.size() }); p || n != c.Size {
 			return fmt.Sprintf("%s: final Size() = %d (panic %v), want %d", s.name, n, v, c.Size), ""
@@ -445,6 +460,10 @@ func genCase(t *rapid.T) Case {
 		default:
 			st.Op = "scribble"
 			st.Ref = rapid.IntRange(0, heldMax-1).Draw(t, "ref")
+		}
+		// the access path of the wrappers' system: mostly the wrapper, sometimes a handle
+		if gen.Chance(t, "viahandle", 35) {
+			st.Via = 1 + gen.Uniform(t, "via", 2)
 		}
 		c.Steps = append(c.Steps, st)
 	}
